@@ -101,6 +101,18 @@ def rule_fillind(fx, rep):
         rep.rule("C19-FILLIND", 1, 1, False, "fill indicator")
         return
     if any(v is None for _, _, v in vals):
+        # a count over a *prefix* of the slot vector (`data.iter().take(1000)`, `data[..1000]`) is a sample, not the fraction of
+        # occupied slots: it is exact only if the keys fill the table evenly from the first search on
+        mentions_data = any(isinstance(x, tuple) and len(x) == 3 and x[0] == "field" and x[2] == "data" for x in walk(e))
+        uses_counter = any(isinstance(x, tuple) and len(x) == 3 and x[0] == "field" and x[2] == "occupied" for x in walk(e))
+        prefix = [c for c in walk(e) if isinstance(c, tuple) and c and c[0] == "call" and isinstance(c[1], str) and
+                  (c[1].endswith("Iterator::take") or c[1].endswith("Iterator>::take") or c[1].split("::")[-1] in ("take", "first_chunk", "split_at") or
+                   (c[1].endswith("::index") and any(isinstance(y, tuple) and y and y[0] == "agg" and "Range" in str(y[1]) for y in walk(c[2][1]) if len(c[2]) > 1)))]
+        if mentions_data and not uses_counter and prefix:
+            rep.obligation(False)
+            rep.violation("C19-FILLIND", "C19-FILLIND/formula", f"occupancy() is `{show(e)[:120]}`: it counts occupied slots among a prefix of the table only, which is not the permille of occupied slots (e.g. 1000 entries stored in slots 0..999 of a larger table read as 1000)", {"fn": oc.name, "file": oc.file, "line": oc.line})
+            rep.rule("C19-FILLIND", 1, 1, False, "fill indicator")
+            return
         rep.notes.append(f"C19-FILLIND: occupancy() formula `{show(e)[:100]}` not evaluable; clause not decided")
         rep.rule("C19-FILLIND", 0, 0, True, "not decided")
         return
@@ -872,6 +884,8 @@ def rule_pref(fx, rep):
 TTF = "src/engine/transposition_table.rs"
 STT = "src/engine/search/transposition.rs"
 MUTANTS = [
+    {"name": "hashfull sampled from the first thousand slots (seed C19-6b)", "expect": "C19-FILLIND/formula",
+     "edits": [("src/engine/transposition_table.rs", "        let decimal = self.occupied as f32 / self.data.len() as f32;\n        let permille = decimal * 1000.0;\n        permille as usize", "        self.data.iter().take(1000).filter(|slot| slot.is_some()).count()")]},
     {"name": "combinator-form probe without the key filter", "expect": "C19-KEY",
      "edits": [("src/engine/transposition_table.rs", "        unsafe {\n            if let Some(entry) = self.data.get_unchecked(idx) {\n                if entry.key == *key {\n                    return Some(&entry.data);\n                }\n            }\n        }\n\n        None",
                 "        let slot = unsafe { self.data.get_unchecked(idx) };\n        slot.as_ref().filter(|entry| entry.key.0 & 0xFFFF == key.0 & 0xFFFF).map(|entry| &entry.data)")]},
